@@ -566,6 +566,7 @@ def check_C02(chk, R, S):
     run_sim_class(chk, "sim-exhaustion", gen_many(R, S["sims"], prof), [M.mon_C02])
     run_sim_class(chk, "sim-watchdog", [gen_watchdog(R) for _ in range(max(60, S["sims"] // 4))], [M.mon_C02])
     run_sim_class(chk, "sim-many-nodes-timers", [gen_many_nodes_timers(R) for _ in range(max(12, S["sims"] // 20))], [M.mon_C02])
+    plugin_hosts_class(chk, R, max(30, S["sims"] // 8))
     run_el_class(chk, "el-chronological", el_chrono(R, max(200, S["el_rand"] // 4)))
     run_el_class(chk, "el-around-source-constants", el_mined(R, max(300, S["el_rand"] // 4)))
     run_el_class(chk, "el-events-at-infinity", el_infinite(R, 200))
@@ -825,7 +826,7 @@ def check_C04(chk, R, S):
         if "near" in base:
             durs = [base["near"][0], base["near"][1], min(base["near"]), None]
         durs = [d for d in durs if d is None or d >= 0.0]        # a negative duration is not a meaningful configuration
-        its = [None, 0, 1, max(1, len(ex) // 2), len(ex), len(ex) + 5]
+        its = [None, 0, 1, max(1, len(ex) // 2), len(ex), len(ex) + 5, -1, -3]      # a negative limit: no ordinal is below it
         for _ in range(4):
             c = copy.deepcopy(base)
             c["dur"], c["maxit"] = R.choice(durs), R.choice(its)
@@ -888,6 +889,12 @@ def check_C06(chk, R, S):
         if R.random() < 0.5:
             w["maxit"] = R.randint(3, 9)
         scs.append(w)
+    # runs that an assertion cuts short (or fails at the end): what the protocols are called back with while the failure
+    # propagates must not depend on how the run is driven either
+    for _ in range(max(20, n // 2)):
+        a = gen_assert_scenario(R)
+        a["drv"] = ("run",)
+        scs.append(a)
     base = corr.corr_sims(scs)
     for r in base:
         chk.record("base", _brief(r["sc"]), True, gen_sim.features(r["sc"], r["impl"]))
@@ -1128,6 +1135,45 @@ def check_C07(chk, R, S):
     run_sim_class(chk, "sim-watchdog", [gen_watchdog(R) for _ in range(max(100, S["sims"] // 2))], [M.mon_C07])
     run_sim_class(chk, "sim-many-timer-names", [gen_many_names(R) for _ in range(max(12, S["sims"] // 20))], [M.mon_C07])
     run_sim_class(chk, "sim-many-nodes-timers", [gen_many_nodes_timers(R) for _ in range(max(12, S["sims"] // 20))], [M.mon_C07])
+    plugin_hosts_class(chk, R, max(30, S["sims"] // 8))
+
+
+def plugin_hosts_class(chk, R, count):
+    """the protocol's own timers when it hosts one of the library's follow-mobility plugins (which run timers and exchange
+    messages of their own): compared with the same scenario without the plugin -- own timers fire exactly as they would.
+    The plugins themselves are not modelled: the two implementation runs are compared with each other."""
+    from scripted import run_sim_impl
+    for _ in range(count):
+        nn = R.randint(1, 2)
+        script = []
+        for me in range(nn):
+            rules = [{"trig": ("init",), "nth": None, "acts": [("settimer", R.randrange(8), "abs", R.choice([0.05, 0.11, 0.25, 0.3])) for _ in range(R.randint(2, 5))]}]
+            if nn > 1:
+                rules.append({"trig": ("timer", None), "nth": 0, "acts": [R.choice([("send", 50 + me, 1 - me), ("bcast", 60 + me)])]})
+            if R.random() < 0.5:
+                rules.append({"trig": ("timer", None), "nth": R.randrange(3), "acts": [R.choice([("cancel", R.randrange(8)), ("settimer", R.randrange(8), "rel", 0.07)])]})
+            script.append(rules)
+        base = {"handlers": ["T", "C", "M"], "nodes": [{"pos": (float(3 * i), 0.0, 0.0), "ty": 0} for i in range(nn)],
+                "med": (100.0, 0.0, 0.0), "mob": (0.05, 1.0, (0.0, 0.0, 0.0)), "asserts": [], "seed": 1, "dur": 0.5, "maxit": None,
+                "drv": ("run",), "script": script, "tag_names": True, "quote_plugin": True, "trace_limit": 200000}
+        hosted = dict(copy.deepcopy(base), host_plugin=R.choice(["leader", "follower"]))
+        ta, _ = run_sim_impl(base)
+        try:
+            tb, _ = run_sim_impl(hosted)
+        except Exception as e:  # noqa: BLE001
+            chk.record("sim-plugin-hosts", {"host": hosted["host_plugin"], "nodes": nn}, True)
+            chk.violation("sim-plugin-hosts", {"scenario": hosted},
+                          ["%s: hosting the %s plugin makes the run raise %s: %s (the same scenario without the plugin completes)"
+                           % (chk.prop, hosted["host_plugin"], type(e).__name__, str(e)[:120])])
+            continue
+        own = lambda tr: [l for l in tr if l.startswith("cb ") and (l.split()[3] == "timer" or (l.split()[3] == "packet" and l.split()[4].isdigit()))]   # noqa: E731
+        chk.record("sim-plugin-hosts", {"host": hosted["host_plugin"], "nodes": nn}, True)
+        chk.validated += 2
+        if own(ta) != own(tb):
+            d = corr.first_diff(own(ta), own(tb))
+            chk.violation("sim-plugin-hosts", {"scenario": hosted},
+                          ["%s: the protocol's own timer / packet callbacks differ when it hosts the %s plugin: line %d: %r (alone) vs %r (hosting)"
+                           % (chk.prop, hosted["host_plugin"], d[0], d[1], d[2])])
 
 
 def check_C08(chk, R, S):
@@ -1268,6 +1314,15 @@ def check_C09(chk, R, S):
     _crowd_class(chk, R, [M.mon_C09])
     run_sim_class(chk, "sim-range-set-before-start", [gen_range_before_start(R, everybody=False) for _ in range(max(30, S["sims"] // 10))], [M.mon_C09])
     run_sim_class(chk, "sim-range-around-source-constants", gen_range_around_constants(R), [M.mon_C09])
+    far = []
+    for _ in range(max(30, S["sims"] // 8)):
+        sc = gen_range_scenario(R)
+        off = (R.choice([1e8, -3.1e9, 2.3e9, 1e10]), R.choice([1e8, 2.3e9, -1.7e9]), R.choice([0.0, 1.7e9]))
+        for nd in sc["nodes"]:
+            nd["pos"] = (nd["pos"][0] + off[0], nd["pos"][1] + off[1], nd["pos"][2] + off[2])
+        far.append(sc)
+    # the same geometry translated far away from the origin of the scene (the separations stay, the magnitudes do not)
+    run_sim_class(chk, "sim-range-far-from-origin", far, [M.mon_C09])
     run_sim_class(chk, "sim-range-toggling", [gen_range_toggling(R) for _ in range(max(40, S["sims"] // 6))], [M.mon_C09])
     # the range gate on a lossy medium, the draws scripted (mostly above the rate): delivered iff in range AND the draw passes
     lossy = []
@@ -1340,6 +1395,7 @@ def check_C10(chk, R, S):
     prof = {"min_nodes": 2, "max_nodes": 6, "p_comm": 1.0, "fails": [0.0, 0.1, 0.5, 0.9, 1.0], "p_assert": 0.0,
             "acts": ["send", "bcast", "bcast", "settimer", "range"]}
     run_sim_class(chk, "loss-seeded", gen_many(R, S["sims"], prof), [])
+    plugin_hosts_class(chk, R, max(30, S["sims"] // 8))
     chk.exhaustive = True
     if chk.tier == "thorough":
         freq_test(chk, R)
@@ -1429,6 +1485,16 @@ def check_C12(chk, R, S):
     run_sim_class(chk, "sim-telemetry", scs, [M.mon_C12])
     _many_nodes_class(chk, R, S, [M.mon_C12])
     _crowd_class(chk, R, [M.mon_C12])
+    # nodes far from the origin crawling so slowly that a whole update's step is below the resolution of their coordinates
+    absorbed = []
+    for _ in range(max(20, S["sims"] // 12)):
+        nn = R.randint(1, 4)
+        nodes = [{"pos": (R.choice([1e7, -3e8, 2.5e9, 0.0]), R.choice([1e7, 0.0, -4e9]), 0.0), "ty": 0} for _ in range(nn)]
+        script = [[{"trig": ("init",), "nth": None, "acts": [R.choice([("goto", nd["pos"][0] + 50.0, nd["pos"][1], 0.0), ("goto", nd["pos"][0] + 50.0, nd["pos"][1] - 20.0, 5.0)]), ("speed", R.choice([1e-9, 1e-12, 3e-10, 1.0]))]}]
+                  for nd in nodes]
+        absorbed.append({"handlers": R.sample(["T", "M"], 2), "nodes": nodes, "med": (60.0, 0.0, 0.0), "mob": (R.choice([0.5, 0.25]), 1e-9, (0.0, 0.0, 0.0)),
+                         "asserts": [], "seed": 1, "dur": 5.0, "maxit": None, "drv": ("run",), "script": script})
+    run_sim_class(chk, "sim-telemetry-absorbed-steps", absorbed, [M.mon_C12])
 
 
 def gen_pair_C13(R):
@@ -1716,6 +1782,14 @@ def check_C18(chk, R, S):
                                   "med": (60.0, 0.0, 0.0), "mob": (1.0, 1.0, (0.0, 0.0, 0.0)), "asserts": [kind], "seed": 1, "dur": None,
                                   "maxit": None, "drv": ("run",), "script": script, "cross_flags": True})
     run_sim_class(chk, "assert-cross-node-writes-exhaustive", cross, [M.mon_C18])
+    # two assertions under ONE name: the first may fail, the second (about a protocol type no node has) cannot
+    dup = []
+    for sc in win[:len(win) // 2]:
+        c = copy.deepcopy(sc)
+        c["asserts"] = [c["asserts"][0], (R.choice(["AP", "EP"]), 1)]
+        c["assert_names"] = ["a0", "a0"]
+        dup.append(c)
+    run_sim_class(chk, "assert-name-collisions", dup, [M.mon_C18])
     # small-scope exhaustive: 1 node, timeline of flag values over 3 events x every assertion kind
     ex = []
     for bits in itertools.product([0, 1], repeat=4):
@@ -2094,7 +2168,13 @@ def gen_trip_case(R, scripted=False, maxops=14):
             ops.append(("telem+finish", None))
         else:
             ops.append(("telem+init", None))
+    during = R.random() < 0.15
+    if during:
+        # a trip is started, a foreign telemetry handler is registered, and the trip is started AGAIN at once
+        ops = [("init",), ("init",)] + [op for op in ops if op[0] not in ("telem+finish", "telem+init")]
     case = {"box": box, "tol": tol, "ops": ops}
+    if during:
+        case["mute"] = "during"
     if scripted:
         case["stream"] = [R.choice([0.0, 1.0 - 2.0 ** -53, 0.5, R.random(), R.random()]) for _ in range(6 * len(ops) + 6)]
     else:
@@ -2139,7 +2219,7 @@ def gen_trip_case(R, scripted=False, maxops=14):
         case["decoy"] = True     # the protocol also owns an idle mission plugin and a second trip plugin that never starts
     if R.random() < 0.3:
         case["kept_ref"] = True  # telemetry delivered through a bound method looked up once, after the plugin was created
-    if R.random() < 0.3 and not any(op[0] in ("telem+finish", "telem+init") for op in ops):
+    if "mute" not in case and R.random() < 0.3 and not any(op[0] in ("telem+finish", "telem+init") for op in ops):
         case["mute"] = True      # after the first trip an INTERRUPTing telemetry filter is registered on the protocol, for good
     return case
 
@@ -2232,9 +2312,15 @@ def check_C20(chk, R, S):
     # goto-geo == goto(converted), through the mobility handler
     from gradysim.protocol.position import geo_to_cartesian
     scs_geo, scs_xyz = [], []
-    for _ in range(max(20, S["sims"] // 4)):
+    for it in range(max(20, S["sims"] // 4)):
         g = G.gen_geo_case(R)
         ref, tgt = g["ref"], g["pts"][0]
+        if it % 5 == 4:
+            # a site on the 180th meridian: targets east of it are written with up-counted longitudes (180.01), those west of
+            # -180 with down-counted ones -- the only spellings that keep the east-west order around the reference
+            lon0 = R.choice([180.0, 179.995, -180.0, -179.996])
+            ref = (R.uniform(-40, 40), lon0, R.choice([0.0, 20.0]))
+            tgt = (ref[0] + R.uniform(-0.01, 0.01), lon0 + R.choice([-1, 1]) * R.uniform(0.002, 0.012), ref[2] + R.choice([0.0, 30.0]))
         try:
             conv = tuple(geo_to_cartesian(tuple(ref), tuple(tgt)))
         except Exception:  # noqa: BLE001
@@ -2333,6 +2419,23 @@ def check_C14(chk, R, S):
             r["trig"] = tuple(r["trig"])
             r["acts"] = [tuple(a) for a in r["acts"]]
     run_plugin_class(chk, "interop-sessions", cases, I.run_interop_impl, I.interop_to_text, I.mon_C14, guard=False)
+    # protocols that host one of the library's follow-mobility plugins (not modelled): the two wrappers compared with each other
+    for _ in range(max(40, S["sims"] // 6)):
+        c = gen_interop_case(R)
+        c["host_plugin"] = R.choice(["leader", "follower"])
+        c.pop("real_mobility", None)
+        for cb in c["cbs"]:
+            cb.pop("install", None)
+        # the plugin's own timers are delivered too (before and after the first telemetry)
+        tag = "FollowMobilityPlugin__leader_broadcast_timer" if c["host_plugin"] == "leader" else "FollowMobilityPlugin__follower_timer"
+        for at in sorted({1, R.randint(1, len(c["cbs"]) - 1), R.randint(1, len(c["cbs"]) - 1)}, reverse=True):
+            c["cbs"].insert(at, {"t": c["cbs"][at - 1]["t"], "kind": "timer", "arg": tag})
+        lines = I.run_interop_impl(c)
+        chk.record("interop-plugin-hosts", {"host": c["host_plugin"], "callbacks": len(c["cbs"])}, True)
+        chk.validated += 1
+        vs = [x for x in I.mon_C14(c, lines) if "NotImplementedError" not in x]
+        if vs:
+            chk.violation("interop-plugin-hosts", c, vs[:3])
     # the known limitation is probed on every run
     probe = {"nid": 0, "ty": 0, "rules": [{"trig": ("init",), "nth": None, "acts": [("settimer", 0, "abs", 1.0), ("cancel", 0)]}],
              "cbs": [{"t": 0.0, "kind": "init", "arg": None}]}
